@@ -455,8 +455,8 @@ func c05(c *wk.Ctx) {
 	if wk.ReplayOne(c, "c05cases", func(idx int) interface{} { return c05extra{Big: idx >= 8000000} }, onDeath) {
 		return
 	}
-	n := c.N(180, 3000)
-	nbig := c.N(2, 8)
+	n := c.N(180, 12000)
+	nbig := c.N(2, 16)
 	type job struct {
 		start, end int
 		big        bool
